@@ -275,7 +275,7 @@ func childMain(args []string) {
 func sweepWorker(in sweepIn) *sweepOut {
 	pl := buildPlan(in.Tier == "thorough")
 	out := &sweepOut{Total: map[string]*tallyOut{}, Fails: map[string]*classOut{}}
-	for _, n := range []string{"P", "Q", "S", "X"} {
+	for _, n := range []string{"P", "Q", "S", "X", "B", "T"} {
 		out.Total[n] = &tallyOut{Outcomes: map[string]int64{}}
 	}
 	n := len(pl.shards)
@@ -333,7 +333,7 @@ func runSweeps(r *report.R, pl *plan, deadline time.Time) *sweepResult {
 		w = 1
 	}
 	res := &sweepResult{total: map[string]*tally{}, workers: w}
-	for _, n := range []string{"P", "Q", "S", "X"} {
+	for _, n := range []string{"P", "Q", "S", "X", "B", "T"} {
 		res.total[n] = newTally()
 	}
 	outs := make([]*sweepOut, w)
